@@ -47,7 +47,12 @@ def dump_mir(crate_dir, out_path, cache_dir, extra_args=()):
     return out_path
 
 
+MIR_TEXT = None   # the dump the current function was taken from (for named constants)
+
+
 def find_function(mir_text, pattern):
+    global MIR_TEXT
+    MIR_TEXT = mir_text
     """Return (header, body_lines) of the unique `fn` whose header matches the regex."""
     hits = [m for m in re.finditer(r"^fn ([^\n]*) \{\n", mir_text, re.M) if re.search(pattern, m.group(1))]
     if len(hits) != 1:
@@ -200,6 +205,18 @@ class Exec:
             else:
                 t = "((_ to_fp %d %d) RNE %s)" % (e, sg, repr(x) if x >= 0 else "(- %s)" % repr(-x))
             return Val(m.group(2), t)
+        # a named constant: resolve it from its own MIR body in the same dump (`_0 = const <literal>;`)
+        mn = re.match(r"^(?:[A-Za-z_][A-Za-z0-9_]*::)*([A-Z_][A-Z0-9_]*)$", s)
+        if mn and MIR_TEXT:
+            name = re.escape(mn.group(1))
+            mc = re.search(r"^const (?:[A-Za-z_][A-Za-z0-9_]*::)*%s: [A-Za-z0-9_]+ = const ([^;{]+);" % name, MIR_TEXT, re.M)
+            if mc:
+                return self.const(mc.group(1))
+            mc = re.search(r"^const (?:[A-Za-z_][A-Za-z0-9_]*::)*%s: [A-Za-z0-9_]+ = \{(.*?)^\}" % name, MIR_TEXT, re.M | re.S)
+            if mc:
+                ml = re.search(r"_0 = const ([^;]+);", mc.group(1))
+                if ml:
+                    return self.const(ml.group(1))
         raise Unsupported("constant %r" % s)
 
     def operand(self, s, env):
@@ -333,6 +350,42 @@ class Exec:
         return [x.strip() for x in out]
 
     # ---- execution --------------------------------------------------------------------------------
+    # integer library functions with an exact bit-vector meaning (so that a clamp or a saturating
+    # operation added to a kernel is encoded, not reported as unsupported)
+    MODELLED = re.compile(r"^(?:<(u8|u16|u32|u64|usize|i8|i16|i32|i64|isize) as (?:std|core)::cmp::Ord>::(min|max)"
+                          r"|(?:std|core)::cmp::(min|max)::<(u8|u16|u32|u64|usize|i8|i16|i32|i64|isize)>"
+                          r"|(?:std|core)::num::<impl (u8|u16|u32|u64|usize)>::(saturating_sub|saturating_add|wrapping_sub|wrapping_add|wrapping_mul))\((.*)\)$")
+
+    def model_call(self, callee, env):
+        m = self.MODELLED.match(callee.strip())
+        if not m:
+            return None
+        ty = m.group(1) or m.group(4) or m.group(5)
+        fn = m.group(2) or m.group(3) or m.group(6)
+        args = self.split_args(m.group(7))
+        if len(args) != 2:
+            return None
+        try:
+            a, b = self.operand(args[0], env), self.operand(args[1], env)
+        except Unsupported:
+            return None
+        if a.term is None or b.term is None or a.ty != ty or b.ty != ty:
+            return None
+        n = INT_BITS[ty]
+        sg = ty in SIGNED
+        lt = "bvslt" if sg else "bvult"
+        if fn == "min":
+            t = "(ite (%s %s %s) %s %s)" % (lt, b.term, a.term, b.term, a.term)
+        elif fn == "max":
+            t = "(ite (%s %s %s) %s %s)" % (lt, a.term, b.term, b.term, a.term)
+        elif fn == "saturating_sub":
+            t = "(ite (bvult %s %s) %s (bvsub %s %s))" % (a.term, b.term, bv(0, n), a.term, b.term)
+        elif fn == "saturating_add":
+            t = "(ite (bvult (bvadd %s %s) %s) %s (bvadd %s %s))" % (a.term, b.term, a.term, bv((1 << n) - 1, n), a.term, b.term)
+        else:
+            t = "(%s %s %s)" % ({"wrapping_sub": "bvsub", "wrapping_add": "bvadd", "wrapping_mul": "bvmul"}[fn], a.term, b.term)
+        return Val(ty, t)
+
     def run(self):
         """Returns list of (path condition, return Val)."""
         self.results = []
@@ -377,6 +430,10 @@ class Exec:
             m = re.match(r"^(_\d+) = (.*) -> \[return: (bb\d+).*\]$", s)
             if m:
                 callee = m.group(2)
+                modelled = self.model_call(callee, env)
+                if modelled is not None:
+                    env[m.group(1)] = modelled
+                    return self.step(m.group(3), env, pc, depth + 1)
                 if not any(re.search(o, callee) for o in self.opaque):
                     raise Unsupported("call %r" % callee)
                 self.fresh += 1
